@@ -95,6 +95,8 @@ mod writer;
 #[cfg(test)]
 mod tests;
 mod unaligned_vector;
+#[cfg(arroy_verif)]
+pub mod verif;
 
 pub use distance::Distance;
 pub use error::Error;
@@ -117,6 +119,8 @@ pub mod internals {
         NodeHeaderEuclidean, NodeHeaderManhattan,
     };
     pub use crate::key::KeyCodec;
+    #[cfg(arroy_verif)]
+    pub use crate::parallel::ConcurrentNodeIds;
     pub use crate::node::{Leaf, NodeCodec};
     pub use crate::unaligned_vector::{SizeMismatch, UnalignedVector, UnalignedVectorCodec};
 
